@@ -4,7 +4,7 @@ NOTES = ("All checks: ./check <id> --tier quick|thorough; setup builds the Coq d
          "and compiles the driver. known_findings.json lists recorded defects (kind known) and repaired ones (kind fixed).")
 NOT_APPLICABLE = {}
 # built, but their fix stage is in progress (model already in the repaired state, patches not yet committed to /repo)
-PENDING = {"C01", "C07", "C10", "C12", "C14"}
+PENDING = {"C01", "C02", "C04", "C07", "C10", "C12", "C14"}
 COMMON_NOTE = ("Trusted: Coq 8.16.1 kernel (+vm_compute), extraction (ExtrOcamlBasic, ExtrOcamlString), OCaml driver, the Python harness, "
                "CPython/torch as referents. Theorems are about the hand-written model; the model<->code tie is this run's differential "
                "correspondence, bounded by its generators (distribution in the evidence). ")
@@ -53,10 +53,40 @@ CHECKS = {
                 "validated against torch in every run. Known findings D3, D25, D30 are listed in known_findings.json.",
         "technique": "Coq theorems (induction on index tuples; invariant linking the code's two passes to torch's adjacent-subspace rule) + differential correspondence",
     },
+    "C02": {
+        "text": ("Proof (Coq): for EVERY coherent tensordict tree (any depth, width, feature shapes, nested batch longer than the parent) and every "
+                 "argument torch accepts, the model of the shape operations (permute, transpose, squeeze, unsqueeze, expand, view, reshape, flatten, "
+                 "unflatten, repeat, repeat_interleave, unbind, split, chunk, stack, cat, masked_select) returns a tree whose batch size is torch's "
+                 "shape for a tensor of the batch shape, with every entry's and nested node's batch prefix replaced and trailing dims untouched, "
+                 "the same keys, and the result again coherent; names are read through the same provenance as sizes (permute, unsqueeze, squeeze, "
+                 "expand, flatten); arguments torch rejects for the batch shape are rejected (transpose, unsqueeze, squeeze(dim), permute); each "
+                 "recorded defect has a kernel-checked refutation witness. Tie: Spec/C02_TorchShape is validated against real torch on every "
+                 "generated case; extracted model vs /repo on outcome class and the whole result tree over the grid (341 batch shapes x ops x "
+                 "argument lists x nesting patterns x names x lock); index-proxy oracle (torch applied to a tensor of indices of the batch shape "
+                 "gives the demanded content of every entry) also on tensorclasses and a lazy-stack sub-domain."),
+        "note": COMMON_NOTE + "view with -1, repeat_interleave(dim=None), names of transpose/unflatten, gather and out= are covered by the correspondence "
+                "and oracle only; lazy stacks are oracle-only; torch kernels trusted. Known findings in findings.d/C02.json.",
+        "technique": "Coq induction over trees with a generic lifting theorem + per-op list arithmetic + vm_compute refutation witnesses + index-proxy differential",
+    },
+    "C04": {
+        "text": ("Proof (Coq): a code-shaped model of the tensordict storage and mapping operations (transcribed from _td.py / base.py / csrc/utils.cpp) "
+                 "REFINES a plain ordered nested dict: for every state and every in-scope op (set, __setitem__, del, pop, rename, update, setdefault, "
+                 "out-of-place flatten_keys, clear, filter_empty_) model and dict agree on ok/raise, the state afterwards, the returned value and "
+                 "out-of-place results, and by induction over ARBITRARY op lists the abstraction commutes with the replay (unique-keys invariant); "
+                 "keys / items / values for all 16 include_nested x leaves_only x sort x is_leaf combinations, len, get, membership, is_empty and "
+                 "to_dict equal the dict's; every spelling of a nested key (string, 1-tuple, arbitrarily nested tuples) gives identical results for "
+                 "every entry point. `_refuted` witnesses for the recorded defects. Stated, differential only: select / exclude / split_keys / "
+                 "unflatten_keys. Tie: extracted model compared step by step with the implementation on random histories over a key universe with "
+                 "prefixes of one another, separator-containing keys, empty nodes and non-tensor leaves, each key in a random spelling; "
+                 "independent Python nested-dict replay as oracle, also on lazy stacks and tensorclass-held tensordicts."),
+        "note": COMMON_NOTE + "Lazy stacks (restricted op set) and tensorclass-held tensordicts are checked by the nested-dict oracle only; paths through "
+                "NonTensorData leaves are excluded. Known findings in findings.d/C04.json.",
+        "technique": "Coq refinement proof (induction over op lists with a unique-keys invariant) + step-wise extracted-model differential + nested-dict oracle",
+    },
     "C07": {
         "text": ("Proof (Coq) on a heap of storages (cell lists), views (storage id + index map) and tensordict nodes, for EVERY state reached by ANY "
                  "history: operations documented in-place (update_/copy_, set_at_/update_at_, td[idx]=v, masked_fill_, fill_, zero_, apply_, "
-                 "underscore arithmetic, augmented assignment, set_) change no node, no binding and no storage size and write only storages behind the "
+                 "underscore arithmetic, augmented assignment, set_ for every key path — a missing intermediate node is a KeyError) change no node, no binding and no storage size and write only storages behind the "
                  "receiver's entries; a written cell is read back through every view of it (aliases observe); every other operation leaves all "
                  "pre-existing storages bit-identical, also over sequences and when it raises; basic index / permute / transpose / squeeze / "
                  "unsqueeze / expand / view / unbind / split give at every nested key a sub-view of the source's entry; copy / select / exclude / "
